@@ -275,6 +275,7 @@ class MNA(object):
                 n2 = cct.node_map[elt.node_names[1]]
                 V1, V2 = self._Vdict[n1], self._Vdict[n2]
                 I = (V1.expr - V2.expr - elt.V0.expr) / elt.Z.expr
+                I = current_sign(I, False)
                 self._Idict[elt.name] = itype(I, **assumptions)
             elif elt.type in ('I', ):
                 I = current_sign(-elt.Isc, True)
